@@ -1185,6 +1185,9 @@ func GenC08(rng *rand.Rand, thorough bool, emit func(*Sx)) {
 						}
 						g := newF(cfg)
 						g.known = false
+						// every AUTH exchange asks for one continuation line (334) before it ends
+						g.script.Auth = []AuthPlan{{Start: BNil, Steps: []SaslStep{{Challenge: []byte("c")}, {Done: true}}},
+							{Start: BNil, Steps: []SaslStep{{Challenge: []byte("c")}, {Done: true}}}}
 						raws := segStream(rng, f.out[:k], nil, (k+ti)%3, fault)
 						if twice {
 							raws = append(raws, fault)
